@@ -111,7 +111,9 @@ fn decode_from_base(image: &[u8], base: u64, start: usize, plan: ReaderPlan, see
     rd.account(ctx);
     ctx.evaluations += 1;
     let tripped = rd.tripped.is_some();
-    (r, rd.position() - base, tripped)
+    // a decoder that seeks before the stream's start leaves a "negative" position: report it as u64::MAX
+    let rel = rd.position_in_image();
+    (r, if rel < 0 { u64::MAX } else { rel as u64 }, tripped)
 }
 
 impl Check for C03 {
@@ -169,6 +171,7 @@ impl Check for C03 {
             gaps: false,
             max_gates: if small { 40 } else { 1840 },
             t31_percent: if small { 70 } else { 55 },
+            extreme_halfwords: 0,
         };
         let mut s = build_stream(tape, &opts);
         // the 12 bytes in front of every header are opaque; make the first four look like an LDM
